@@ -112,7 +112,7 @@ CHECKS = [
         'static frame/alias analysis on the real source (frame conditions) + bounded fingerprint oracles over the introspected API',
         'DESIGN.md C12'),
     chk('C13', 'other',
-        'Engine A proves for all inputs that both NaN parsers (_parse_nan_vectors, compare._parse_input_rdms; arrays and RDMs) return normally ONLY if every row of both inputs has the mask of row 0 of the first, select by that mask, and raise ValueError otherwise. Engine B runs the real combine._mean on symbolic dissimilarities and symbolic positive weights with EVERY subset of RDMs missing for some pair (stacks of 2-3 RDMs; unweighted, one weight per RDM as array or descriptor name, one weight per entry) and proves for all real values: mean_j = sum over available r of w_rj x_rj / sum over available r of w_rj, NaN exactly where no RDM has a value, the weights of the caller untouched. Entry-deleted equality for every measure and sigma_k, pooling, noise ceilings, regression, rescale: bounded oracle tier.',
+        'Engine B proves the central clause for all positive real values at small shapes: compare() of stacks in which the same entries are missing equals the measure of the entry-deleted vectors (cosine, correlation). Engine A proves for all inputs that both NaN parsers (_parse_nan_vectors, compare._parse_input_rdms; arrays and RDMs) return normally ONLY if every row of both inputs has the mask of row 0 of the first, select by that mask, and raise ValueError otherwise. Engine B runs the real combine._mean on symbolic dissimilarities and symbolic positive weights with EVERY subset of RDMs missing for some pair (stacks of 2-3 RDMs; unweighted, one weight per RDM as array or descriptor name, one weight per entry) and proves for all real values: mean_j = sum over available r of w_rj x_rj / sum over available r of w_rj, NaN exactly where no RDM has a value, the weights of the caller untouched. Entry-deleted equality for every measure and sigma_k, pooling, noise ceilings, regression, rescale: bounded oracle tier.',
         'np.isnan / np.all uninterpreted; conjugate-gradient tolerance 1e-4 for whitened measures; 1 open finding (rescale default threshold)',
         'contract-based deductive verification: sidecar contracts on the real functions, ast->z3 VC generation on the real source (re-read every run), external z3 portfolio + bounded run-time oracles',
         'DESIGN.md C13'),
